@@ -12,7 +12,7 @@ use ruma_common::{
 use ruma_macros::EventContent;
 use serde::{
     de::{Deserializer, Error},
-    Deserialize, Serialize,
+    Deserialize, Serialize, Serializer,
 };
 use serde_json::{value::RawValue as RawJsonValue, Value as JsonValue};
 
@@ -84,9 +84,8 @@ impl SyncRoomJoinRulesEvent {
 ///
 /// This type can hold an arbitrary string. To check for values that are not available as a
 /// documented variant here, use its string representation, obtained through `.as_str()`.
-#[derive(Clone, Debug, PartialEq, Eq, Serialize)]
+#[derive(Clone, Debug, PartialEq, Eq)]
 #[cfg_attr(not(ruma_unstable_exhaustive_types), non_exhaustive)]
-#[serde(tag = "join_rule", rename_all = "snake_case")]
 pub enum JoinRule {
     /// A user who wishes to join the room must first receive an invite to the room from someone
     /// already inside of the room.
@@ -112,7 +111,6 @@ pub enum JoinRule {
     Public,
 
     #[doc(hidden)]
-    #[serde(skip_serializing)]
     _Custom(PrivOwnedStr),
 }
 
@@ -128,6 +126,27 @@ impl JoinRule {
             JoinRule::Public => "public",
             JoinRule::_Custom(rule) => &rule.0,
         }
+    }
+}
+
+impl Serialize for JoinRule {
+    fn serialize<S>(&self, serializer: S) -> Result<S::Ok, S::Error>
+    where
+        S: Serializer,
+    {
+        #[derive(Serialize)]
+        struct JoinRuleSerHelper<'a> {
+            join_rule: &'a str,
+            #[serde(flatten, skip_serializing_if = "Option::is_none")]
+            restricted: Option<&'a Restricted>,
+        }
+
+        let restricted = match self {
+            Self::Restricted(restricted) | Self::KnockRestricted(restricted) => Some(restricted),
+            _ => None,
+        };
+
+        JoinRuleSerHelper { join_rule: self.as_str(), restricted }.serialize(serializer)
     }
 }
 
